@@ -1199,6 +1199,12 @@ func (fr *frame) spawnMonitors(c *ssa.CallCommon, st *State) {
 	vc := fr.vc()
 	callee := c.StaticCallee()
 	if callee == nil {
+		// go func() { ... }(): the closure's own contract
+		if mc := fr.closureOf(c.Value); mc != nil {
+			callee, _ = mc.Fn.(*ssa.Function)
+		}
+	}
+	if callee == nil {
 		return
 	}
 	ct := e.db.ByKey[callee.String()]
